@@ -369,6 +369,9 @@ fn gp(g: &Guard<Point>) -> String {
 }
 
 pub fn replay(ctx: &Arc<Ctx>, v: &Value) {
+    if crate::cold::replay(ctx, v) {
+        return;
+    }
     let c: Case = serde_json::from_value(v.clone()).expect("C11 case");
     eval(ctx, &c);
 }
@@ -588,4 +591,5 @@ pub fn run(ctx: &Arc<Ctx>) {
     ctx.sample(serde_json::to_value(cases.iter().find(|c| matches!(c, Case::ScalarMul { .. })).unwrap()).unwrap());
     run_cases(ctx, &cases, 256, eval);
     ctx.assume("crate-private dead code (fp_div2, fp_neg of the trait, fn_inv) is not judged: no public operation reaches it");
+    crate::cold::check(ctx, "C11");
 }
